@@ -74,6 +74,28 @@ func driveH2C(c *ctx) {
 			suite("NU", dst, msg, false)
 		}
 	}
+	// tag and message live in ONE buffer (frame[:n], frame[n:]) with spare bytes behind: the call is a pure function of its
+	// arguments and writes nothing the caller owns
+	for _, n := range []int{1, 16, 43, 200, 255} {
+		for _, sn := range []string{"RO", "NU"} {
+			frame := append(randBytes(rng, n), []byte("abc-the-message-follows-the-tag")...)
+			frame = append(frame, bytes.Repeat([]byte{0x5A}, 40)...)[:len(frame)]
+			before := append([]byte{}, frame[:cap(frame)]...)
+			dst, msg := frame[:n], frame[n:]
+			dh, mh := hx(dst), hx(msg)
+			f := h2c.Secp256k1_XMD_SHA256_SSWU_RO
+			if sn == "NU" {
+				f = h2c.Secp256k1_XMD_SHA256_SSWU_NU
+			}
+			p, err := f(dst, msg)
+			o := ""
+			if err == nil {
+				o = hx(p.UncompressedBytes())
+			}
+			c.E("h2c.Suite", "suite", sn, "dst", dh, "msg", mh, "ok", err == nil, "out", o, "again", o, "vector", false,
+				"args_same", bytes.Equal(before, frame[:cap(frame)]))
+		}
+	}
 	// consecutive calls whose DST || message concatenations coincide (the boundary between the two moved): independent results
 	for _, k := range []int{1, 2, 3, 7} {
 		dst, msg := []byte("QUUX-V01-CS02-with-secp256k1_XMD:SHA-256_SSWU_RO_"), []byte("abcdefghijklmnop")
